@@ -198,6 +198,22 @@ def readData (a : Arr) (ix : Index) : Except Err Result := do
   else
     .ok ⟨a.dtype, shape, vals⟩
 
+/-! ## Ticks of a range dimension linked to the array
+
+`RangeDimension.link_data_array(array, index)` validates the index (`_check_link_dimensionality`, `_check_index`:
+one entry per axis, exactly one `-1`, no other negative entry); `dimension.ticks` / `DimensionLink.values` then
+read the linked vector as `linked_data[index with -1 ↦ :]`, where `linked_data` is the *HDF5 dataset* of the
+array (`H5Group.get_data("data")`): NumPy basic indexing of the stored elements.  The calibration is not
+applied on this path (it does not go through `_read_data`). -/
+
+def linkValues (a : Arr) (index : List Int) : Except Err (List Rat) :=
+  if index.length != a.shape.length then .error .valueError      -- `IncompatibleDimensions`, a `ValueError`
+  else if index.count (-1) != 1 || (index.filter (· < 0)).length != 1 then .error .valueError
+  else do
+    let items := index.map fun i => if i = -1 then fullSlice else AxisIx.int i
+    let (_, vals) ← rawRead a (some items)
+    .ok vals
+
 /-! ## Views -/
 
 /-- a `DataView`: validity flag and, when valid, the simplified `(start, stop)` window per axis (step 1) -/
@@ -310,6 +326,8 @@ inductive Op where
   | getCoeffs
   | getOrigin
   | rawDump
+  /-- link a range dimension of another array to this one at `index` and read its `ticks` -/
+  | linkTicks (index : List Int)
   /-- `da[:] = vals` with as many values as the array has elements -/
   | write (vals : List Rat)
   | reopen
@@ -344,6 +362,10 @@ def step (a : Arr) : Op → Arr × Out
   | .getCoeffs => (a, .coeffs a.coeffsGet)
   | .getOrigin => (a, .origin a.originGet)
   | .rawDump => (a, .raw a.dtype a.shape a.raw)
+  | .linkTicks index =>
+    match linkValues a index with
+    | .ok vals => (a, .coeffs vals)
+    | .error e => (a, .err e)
   | .write vals =>
     if vals.length = a.raw.length then ({ a with raw := vals }, .unit)
     else (a, .err .typeError)                                 -- h5py: "Can't broadcast"
